@@ -55,6 +55,11 @@ func Analyze(s *core.Spec) (*SpecAnalysis, error) {
 
 	// Delve into each node, akin to inspecting every component of a pencil, from its wood to the graphite core.
 	for name, n := range s.Nodes {
+		if n == nil {
+			// A node without any content, which Compile
+			// will replace with an empty Node.
+			n = &core.Node{}
+		}
 		// Actions are deliberate steps, like the precise cutting of wood or molding of graphite.
 		if n.Action != nil || n.ActionSource != nil {
 			a.Actions++
